@@ -1,7 +1,7 @@
 //! C15 — thread safety by construction: no global or interior state, any interleaving.
 //! Observable half: generated programs (op sequences over shared zones) run (1) sequentially, (2) in reversed and permuted order,
 //! (3) by N threads sharing the values by reference with barriers and yields, (4) in a child process under perturbed ambient state
-//! (TZ, TZDIR, LANG, cwd). Every op's digest must equal its digest in the plain sequential run.
+//! (TZ, TZDIR, LANG, cwd, and the virtual zoneinfo directories made real on disk with other contents). Every op's digest must equal its digest in the plain sequential run.
 use crate::gens::{self, Fields, ZoneCfg};
 use crate::model::MZone;
 use crate::props::c08::zoneinfo_files;
@@ -41,15 +41,40 @@ pub struct Program {
     pub perm_seed: u64,
 }
 
-const STRINGS: [&str; 8] = ["UTC0", "EST5EDT,M3.2.0,M11.1.0", "Zone/A", "Zone/B", ":Zone/A", "localtime", "CET-1CEST,M3.5.0,M10.5.0/3", " AAA3 "];
+const STRINGS: [&str; 10] = ["Zone/../Zone/A", "./Zone/B", "UTC0", "EST5EDT,M3.2.0,M11.1.0", "Zone/A", "Zone/B", ":Zone/A", "localtime", "CET-1CEST,M3.5.0,M10.5.0/3", " AAA3 "];
 
 thread_local! {
     static CUR_VFS: Cell<usize> = const { Cell::new(0) };
 }
 
+/// The virtual directories carry names under the scratch area, so that the child process can make them REAL (with different
+/// contents) on disk: any consultation of the real file system next to the injected read function then changes a digest.
+fn vdir(k: usize) -> &'static str {
+    static D: OnceLock<[String; 2]> = OnceLock::new();
+    let d = D.get_or_init(|| {
+        let base = crate::run::verif_dir().join("build/c15fs");
+        [base.join("d1").display().to_string(), base.join("d2").display().to_string()]
+    });
+    Box::leak(d[k].clone().into_boxed_str())
+}
+
+/// Child mode only: create the virtual directories and files for real (with other contents).
+pub fn make_real_tree() {
+    for d in [vdir(0), vdir(1)] {
+        let _ = std::fs::create_dir_all(format!("{d}/Zone"));
+        for f in ["Zone/A", "Zone/B", "UTC0"] {
+            let _ = std::fs::write(format!("{d}/{f}"), b"not the virtual content");
+        }
+    }
+}
+pub fn remove_real_tree() {
+    let _ = std::fs::remove_dir_all(crate::run::verif_dir().join("build/c15fs"));
+}
+
 fn vfs_tables() -> &'static Vec<(Vec<&'static str>, BTreeMap<String, Vec<u8>>)> {
     static T: OnceLock<Vec<(Vec<&'static str>, BTreeMap<String, Vec<u8>>)>> = OnceLock::new();
     T.get_or_init(|| {
+        let (d1, d2) = (vdir(0), vdir(1));
         let zf = |off: i32| {
             let b = crate::tzif::Block { times: vec![], type_idx: vec![], ttinfos: vec![(off, 0, 0)], chars: b"VFS\0".to_vec(), leaps: vec![], isstd: vec![], isut: vec![] };
             crate::tzif::write(&crate::tzif::FileModel { version: 2, v1: b.clone(), v2: Some(b), footer: vec![] })
@@ -58,14 +83,17 @@ fn vfs_tables() -> &'static Vec<(Vec<&'static str>, BTreeMap<String, Vec<u8>>)> 
         // same names, different contents / directory orders: a cache keyed by the TZ string alone would mix them up
         for k in 0..4i32 {
             let mut m = BTreeMap::new();
-            m.insert("/d1/Zone/A".to_string(), zf(3600 * (k + 1)));
-            m.insert("/d2/Zone/A".to_string(), zf(-3600 * (k + 1)));
-            m.insert("/d1/Zone/B".to_string(), zf(1800 * (k + 1)));
+            m.insert(format!("{d1}/Zone/A"), zf(3600 * (k + 1)));
+            m.insert(format!("{d1}/Zone/../Zone/A"), zf(3600 * (k + 1) + 60));
+            m.insert(format!("{d2}/./Zone/B"), zf(77 * (k + 1)));
+            m.insert(format!("{d2}/Zone/A"), zf(-3600 * (k + 1)));
+            // Zone/B exists only in the directory that is searched last: a lookup served by a later directory
+            m.insert(if k < 2 { format!("{d2}/Zone/B") } else { format!("{d1}/Zone/B") }, zf(1800 * (k + 1)));
             m.insert("/etc/localtime".to_string(), zf(900 * (k + 1)));
             if k % 2 == 1 {
-                m.insert("/d2/UTC0".to_string(), zf(60 * k));
+                m.insert(format!("{d2}/UTC0"), zf(60 * k));
             }
-            let dirs: Vec<&'static str> = if k < 2 { vec!["/d1", "/d2"] } else { vec!["/d2", "/d1"] };
+            let dirs: Vec<&'static str> = if k < 2 { vec![d1, d2] } else { vec![d2, d1] };
             v.push((dirs, m));
         }
         v
@@ -108,6 +136,11 @@ fn fields_at(t: i64, off: i32) -> Fields {
 }
 
 /// Execute one op against the shared values; returns a digest of everything observable about its result.
+fn shared_settings() -> &'static Vec<TimeZoneSettings<'static>> {
+    static S: OnceLock<Vec<TimeZoneSettings<'static>>> = OnceLock::new();
+    S.get_or_init(|| vfs_tables().iter().map(|t| TimeZoneSettings::new(&t.0, vfs_read)).collect())
+}
+
 fn exec(op: &Op, zones: &[TimeZone], times: &[i64]) -> u64 {
     let z = |i: u8| &zones[i as usize % zones.len()];
     let t = |i: u8| times[i as usize % times.len()];
@@ -119,13 +152,14 @@ fn exec(op: &Op, zones: &[TimeZone], times: &[i64]) -> u64 {
         Op::Resolve { s, vfs } => {
             let k = *vfs as usize % vfs_tables().len();
             CUR_VFS.with(|c| c.set(k));
-            let settings = TimeZoneSettings::new(&vfs_tables()[k].0, vfs_read);
+            // the settings value is shared by every operation and thread of the process (state hidden inside it would show as order dependence)
+            let settings = &shared_settings()[k];
             h(settings.parse_posix_tz(STRINGS[*s as usize % STRINGS.len()]).map_err(|e| format!("{e:?}")))
         }
         Op::ParseLocal { vfs } => {
             let k = *vfs as usize % vfs_tables().len();
             CUR_VFS.with(|c| c.set(k));
-            let settings = TimeZoneSettings::new(&vfs_tables()[k].0, vfs_read);
+            let settings = &shared_settings()[k];
             h(settings.parse_local().map_err(|e| format!("{e:?}")))
         }
         Op::Lookup { z: zi, t: ti } => h(z(*zi).find_local_time_type(t(*ti))),
@@ -243,6 +277,17 @@ pub fn check_program(p: &Program, st: &mut Stats) -> Result<(), String> {
 
 /// Child mode: print the sequential digests of the program stored in the file (one per line).
 pub fn child_main(path: &str) -> i32 {
+    if std::env::var("VERIF_C15_MAKE_REAL").is_ok() {
+        make_real_tree();
+    }
+    let rc = child_inner(path);
+    if std::env::var("VERIF_C15_MAKE_REAL").is_ok() {
+        remove_real_tree();
+    }
+    rc
+}
+
+fn child_inner(path: &str) -> i32 {
     let text = match std::fs::read_to_string(path) {
         Ok(t) => t,
         Err(_) => return 2,
@@ -326,10 +371,12 @@ pub fn run(ctx: &Ctx) -> Outcome {
         out.failure = Some(Failure::new("infra", "cannot write build/c15-programs.json", json!(null)));
         return out;
     }
+    remove_real_tree(); // the parent runs with the virtual directories absent from the real disk
     let exe = std::env::current_exe().unwrap();
     let child = std::process::Command::new(exe)
         .arg("C15")
         .env("VERIF_C15_CHILD", &path)
+        .env("VERIF_C15_MAKE_REAL", "1")
         .env("TZ", "<+11>-11")
         .env("TZDIR", "/nonexistent/zoneinfo")
         .env("LANG", "tr_TR.UTF-8")
@@ -358,7 +405,7 @@ pub fn run(ctx: &Ctx) -> Outcome {
             let a: Vec<&str> = here.split(' ').collect();
             let b: Vec<&str> = line.split(' ').collect();
             let i = a.iter().zip(&b).position(|(x, y)| x != y).unwrap_or(0);
-            out.failure = Some(Failure::new("ambient", format!("op #{i} {:?} returns something else in a process started with TZ='<+11>-11', TZDIR, LANG changed and cwd=/tmp: the result depends on ambient process state", p.ops.get(i)), p.clone()));
+            out.failure = Some(Failure::new("ambient", format!("op #{i} {:?} returns something else in a process started with TZ='<+11>-11', TZDIR, LANG changed, cwd=/tmp and the virtual zoneinfo directories existing for real on disk (with other contents): the result depends on ambient process state", p.ops.get(i)), p.clone()));
             return out;
         }
     }
